@@ -47,8 +47,10 @@ def _has_par(s):
     return False
 
 
-def _decode(out, d):
-    """inverse of within_directory: strip the directory, PAR -> .., resolve against its parent"""
+def _decode(out, d, leaf_literal=False):
+    """inverse of within_directory: strip the directory, PAR -> .., resolve against its parent;
+    leaf_literal: the last component is a file name (a stem `PAR`, from a source `PAR.c`, is not a
+    rewritten parent reference: a file cannot be named `..`)"""
     pre = d.suffix + '/'
     if out.suffix == d.suffix:
         comps = []     # the path was the directory's own parent
@@ -56,7 +58,8 @@ def _decode(out, d):
         return None
     else:
         comps = out.suffix[len(pre):].split('/')
-    back = [('..' if c == 'PAR' else c) for c in comps]
+    back = [('..' if c == 'PAR' and not (leaf_literal and k == len(comps) - 1) else c)
+            for k, c in enumerate(comps)]
     base = posixpath.dirname(d.suffix)
     return posixpath.normpath(posixpath.join(base, '/'.join(back)))
 
@@ -122,7 +125,7 @@ def o_objname_dir(s: str) -> bool:
     obj = CC.output_file(name, None)
     if not obj.path.suffix.endswith('.o'):
         return R(False)
-    stem = _decode(_mkpath(obj.path.suffix[:-2]), D)
+    stem = _decode(_mkpath(obj.path.suffix[:-2]), D, leaf_literal=True)
     return R(obj.path.root == Root.builddir and stem == posixpath.splitext(s)[0])
 
 
@@ -139,7 +142,13 @@ def u_user_path(s: str) -> bool:
         return True
     if KF_TILDE and p.suffix[0] == '~':
         return True
-    out = bpath.within_directory(p.reroot(), D)
+    try:
+        out = bpath.within_directory(p.reroot(), D)
+    except ValueError as e:
+        # './a:b' normalises to a suffix that looks drive-prefixed and is then rejected when the
+        # path is rebuilt: configuration stops with an error, nothing is misplaced (the
+        # inconsistency itself is C12's known finding C12-F6)
+        return R('drives not supported' in str(e))
     ok = out.root == Root.builddir and (out.suffix == D.suffix or
                                         out.suffix.startswith(D.suffix + '/'))
     return R(ok and _decode(out, D) == p.suffix)
